@@ -53,6 +53,28 @@ func TestVerifC12Twin(t *testing.T) {
 			extra = vfCollidingPair(rt, srv)
 		}
 		seq, _ := vfGenSeq(rt, srv, 5, 40, extra)
+		// clients whose real IP is empty or not an address (X-Forwarded-For with private hops only and no
+		// X-Real-Ip; a junk X-Real-Ip): whatever the filters decide for them, both twins must decide alike
+		noIP := 0
+		for i := range seq {
+			if rapid.IntRange(0, 6).Draw(rt, "noip") != 0 {
+				continue
+			}
+			var hs [][2]string
+			for _, kv := range seq[i].Headers {
+				if kv[0] != "X-Real-Ip" && kv[0] != "X-Forwarded-For" {
+					hs = append(hs, kv)
+				}
+			}
+			hs = append(hs, rapid.SampledFrom([][2]string{{"X-Forwarded-For", "10.1.2.3, 192.168.0.1"}, {"X-Real-Ip", "junk"},
+				{"X-Forwarded-For", "unknown"}, {"X-Real-Ip", "10.0.0.300"}, {"X-Forwarded-For", "fe80::1"}}).Draw(rt, "noipform"))
+			seq[i].Headers = hs
+			seq[i].Remote = "192.0.2.7:4321"
+			noIP++
+		}
+		if noIP > 0 {
+			vf.Class("sequence-with-client-without-a-parseable-real-ip")
+		}
 		var reloadSpecs [2]*supervisor.Spec
 		if rapid.Bool().Draw(rt, "bodies") {
 			// request bodies around the generated clientMaxBodySize values (10 / 1000 / -1 / default)
